@@ -115,10 +115,15 @@ def run_check(prop, modname, tier="quick", seed=0, procs=None, level="proof", as
               explanation="", funcs_note=None):
     import importlib
     t0 = time.time()
-    mod = importlib.import_module(modname)
-    joblist = list(mod.jobs(tier, seed))
+    modnames = [modname] if isinstance(modname, str) else list(modname)
+    args = []
+    for mn in modnames:
+        mod = importlib.import_module(mn)
+        args += [(mn, j.id, tier, seed) for j in mod.jobs(tier, seed)]
     procs = procs or min(16, os.cpu_count() or 4)
-    args = [(modname, j.id, tier, seed) for j in joblist]
+    for f in os.listdir(os.path.join(ROOT, "replays")) if os.path.isdir(os.path.join(ROOT, "replays")) else []:
+        if f.startswith(prop + "-"):
+            os.remove(os.path.join(ROOT, "replays", f))
     if procs > 1 and len(args) > 1:
         ctxm = mp.get_context("fork")
         with ctxm.Pool(procs) as pool:
